@@ -38,6 +38,21 @@ type memTable struct {
 	maxVersion uint64
 	opt        Options
 	buf        *bytes.Buffer
+	walOnce    sync.Once // the WAL is deleted once: when dropped, or when the skiplist is released
+}
+
+// deleteWAL removes the memtable's write-ahead log. The skiplist, which open iterators may still be
+// reading, is not touched.
+func (mt *memTable) deleteWAL() {
+	if mt.wal == nil {
+		return
+	}
+	mt.walOnce.Do(func() {
+		y.VerifIO("unlink", mt.wal.path)
+		if err := mt.wal.Delete(); err != nil {
+			mt.opt.Errorf("while deleting file: %s, err: %v", mt.wal.path, err)
+		}
+	})
 }
 
 func (db *DB) openMemTables(opt Options) error {
@@ -129,10 +144,7 @@ func (db *DB) openMemTable(fid, flags int) (*memTable, error) {
 	// Have a callback set to delete WAL when skiplist reference count goes down to zero. That is,
 	// when it gets flushed to L0.
 	s.OnClose = func() {
-		y.VerifIO("unlink", mt.wal.path)
-		if err := mt.wal.Delete(); err != nil {
-			db.opt.Errorf("while deleting file: %s, err: %v", filepath, err)
-		}
+		mt.deleteWAL()
 	}
 
 	if lerr == z.NewFile {
